@@ -46,6 +46,7 @@ KNOWN = {
     "labels:presentation": "C04-D20-dotted-label-followup",
     "complete:refresh-only": "C04-last-second-refresh-not-new",
     "complete:srv-targets": "C04-second-srv-target",
+    "order:browse-expiring-ptr": "C04-browse-over-expiring-ptr",
 }
 
 
@@ -63,6 +64,7 @@ def generate(rng, tier):
         ("case", 120 * k, lambda r, i: bc.gen_special(r, i, "case")),
         ("twotypes", 30 * k, lambda r, i: bc.gen_special(r, i, "two-types")),
         ("srvtargets", 20 * k, lambda r, i: bc.gen_special(r, i, "srv-targets")),
+        ("brexp", 40 * k, lambda r, i: bc.gen_special(r, i, "browse-expiring")),
         ("long", 3 * k, bc.gen_long),
     ])
 
